@@ -199,6 +199,21 @@ PROPS = {
                         "cases_mask_alphamap_clip_active": 5, "cases_src_alphamap_clip_active": 20}},
         assumptions=["the model intersection in harness/mon_c03.c is written from the statement", "for trapezoid/glyph entry points only 'nothing outside bounds and destination clip' is asserted"],
     ),
+    "C10": dict(
+        level="exploration", monitors={"mon_c10": {"sources": ["mon_c10.c", "vf_req.c", "ref_pixel.c", "vf.c"]}},
+        runs=[dict(name="plain", monitor="mon_c10", flavour="plain", cases={"quick": 4704, "thorough": 35280}),
+              dict(name="general-only", monitor="mon_c10", flavour="plain", config="general-only", env=GENERAL_ONLY, cases={"quick": 4704, "thorough": 35280}),
+              dict(name="asan", monitor="mon_c10", flavour="asan", cases={"quick": 4704, "thorough": 11760})],
+        rule="case = (format, kind, chunk): for every format accepted as a source (and float formats) ALL 2^bpp pixel values for bpp <= 16 (16 chunks of 4096) and per-byte-lane sweeps + random words for 24/32 bpp, placed at x offsets 0..9; "
+             "kinds: decode to a8r8g8b8 against the reference widening (bit replication; palettes for indexed formats; wide formats: 0->0, max->max, most significant bits), decode to rgba_float against v/(2^n-1), "
+             "encode from a8r8g8b8 against truncation (indexed: ent[] with the 15-bit key), round trips F->a8r8g8b8->F and F->float->F, store footprint at bit level for 1..3-pixel stores, "
+             "scanline reader vs single-pixel reader (forced by a homogeneous-scale identity transform), and every read/write repeated on an accessor image whose bits pointer is an unmapped fake address "
+             "(a direct dereference faults; callbacks are bounds-checked); evaluations = pixel values compared; a cell = (kind, format, chunk, x offset)",
+        floors={"any": {"labels:format_kind": 180, "accessor_reads": 100000, "accessor_writes": 100000, "roundtrip_pixels": 500000, "footprint_bits": 100000}},
+        exhaustive={"quick": True, "thorough": True},
+        exhaustive_note="exhaustive over all pixel values of every format with bpp <= 16; 24/32-bpp and float formats are sampled (byte-lane sweeps + random)",
+        assumptions=["reference codec harness/ref_pixel.c written from the format macros of pixman.h", "yv12 is not exercised (planar layout); yuy2 only scanline-vs-pixel agreement"],
+    ),
 }
 
 # ---------------------------------------------------------------- MANIFEST texts
@@ -252,6 +267,11 @@ MANIFEST_TEXT["C03"] = dict(
     technique="model-based runtime monitor: bitmap model of the composite region vs pixman_compute_composite_region; bit-level write-footprint snapshots on guard-paged storage; must-write marking requests",
     level_text="Exploration: 10^5..5*10^6 requests with multi-rectangle clips on every image and alpha map, every destination depth and all drawing entry points; the region query is compared point by point with a model and every bit outside the region must survive the call.",
     level_note="trusted: the intersection model (grid_and_*) in harness/mon_c03.c; snapshot diff at bit granularity")
+
+MANIFEST_TEXT["C10"] = dict(
+    technique="reference-codec runtime monitor, exhaustive over pixel values for bpp <= 16; translating accessors on an unmapped fake base (a bypass faults); bit-level store footprint",
+    level_text="Exploration, exhaustive in the pixel-value dimension for all formats up to 16 bpp: decode, encode, round trips, footprint, reader agreement and accessor equivalence are each compared with an independent codec.",
+    level_note="trusted: harness/ref_pixel.c; conversions go through OP_SRC composites (default and general-only chains)")
 
 NOT_CLAIMED = {p: "monitor not built yet in this round (design in DESIGN.md section 6); no claim is made" for p in
                ["C%02d" % i for i in range(1, 21)]}
